@@ -120,7 +120,11 @@ func FileUtilsRead(file *os.File, offset int64) (*RecordHead, *RecordBody, error
 	}
 
 	heaBuf := make([]byte, RecordHeadLength)
-	_, err = file.Read(heaBuf)
+	_, err = io.ReadFull(file, heaBuf)
+	if err == io.ErrUnexpectedEOF {
+		// the head is torn
+		return nil, nil, ErrRecordDamaged
+	}
 	if err != nil {
 		return nil, nil, err
 	}
@@ -135,10 +139,21 @@ func FileUtilsRead(file *os.File, offset int64) (*RecordHead, *RecordBody, error
 		return nil, nil, err
 	}
 
+	// don't trust the length in a damaged head
+	if fileInfo, err := file.Stat(); err == nil && int64(head.Len) > fileInfo.Size() {
+		return nil, nil, ErrRecordDamaged
+	}
 	bodyBuf := make([]byte, head.Len)
-	_, err = file.Read(bodyBuf)
+	_, err = io.ReadFull(file, bodyBuf)
+	if err == io.ErrUnexpectedEOF || (err == io.EOF && head.Len > 0) {
+		// the body is torn
+		return nil, nil, ErrRecordDamaged
+	}
 	if err != nil {
 		return nil, nil, err
+	}
+	if head.Len > 0 && CheckSum(bodyBuf) != head.Crc {
+		return nil, nil, ErrRecordDamaged
 	}
 
 	var body RecordBody
